@@ -29,7 +29,7 @@ from pathlib import Path
 from typing import Any
 
 from harness import c08_extract, c08_gen, common
-from harness.c08_gen import MODULE_HEADER, ast_to_tree, coq_fundef, eval_mathml, fn_src, gen_core_expr, gen_expr, gen_function, outcome_to_coq
+from harness.c08_gen import MODULE_HEADER, MODULE_HEADER2, ast_to_tree, coq_fundef, eval_mathml, fn_src, gen_core_expr, gen_expr, gen_function, outcome_to_coq
 from harness.common import Run, clist, cn, cq, cstr
 
 AREA = "sbmlexp"
@@ -758,6 +758,115 @@ def positional_roundtrip(nd: dict, scratch: Path, f: Path) -> str | None:
     return None
 
 
+import re as _re
+
+SID_RE = _re.compile(r"[A-Za-z_][A-Za-z0-9_]*")
+# non-ASCII characters for the id stream: letters (Greek, Latin-1, Cyrillic), a compatibility letter (MICRO SIGN), digits of
+# other scripts, a superscript digit (a `\w` character that is neither a letter nor legal in an identifier)
+UNICODE_CHARS = "\u03b1\u03b2\u0394\u03bb\u03bc\u00e9\u00fc\u00f1\u0436\u00df\u00b5\u0663\u096b\u00b2"
+UNICODE_ID_CORPUS = ["s\u03b1", "k\u03bc", "v\u03b2", "d\u0394", "\u03b1s", "\u03b1", "x\u00b2", "\u0663", "a\u0663b", "\u00e9t\u00e9", "s\u03b1-1", "k.\u03bc"]
+# names that survive the round trip: an ASCII letter first, then ASCII word characters and NFKC-stable letters that are
+# legal in a Python identifier (the importer and the code generator need Python identifiers)
+UNICODE_LETTERS = "\u03b1\u03b2\u03b3\u0394\u03bb\u03bc\u03c9\u00e9\u00fc\u00f1\u0436\u00df\u03c0"
+UNICODE_DOC_CORPUS = [
+    {"P": "k\u03bc", "V": "s\u03b1", "W": "p", "D": "d\u0394", "R": "v\u03b2", "ia": True, "computed": True},
+    {"P": "k", "V": "s\u03b1", "W": "p\u03b2", "D": "d", "R": "v", "ia": False, "computed": False},
+]
+
+
+def gen_unicode_doc(rng) -> dict:  # noqa: ANN001
+    def name(stem: str) -> str:
+        if rng.random() < 0.25:
+            return stem
+        ch = rng.choice(UNICODE_LETTERS)
+        return stem + ch + rng.choice(["", "", "1", "_x", rng.choice(UNICODE_LETTERS)])
+
+    while True:
+        nd = {"P": name("k"), "V": name("s"), "W": name("p"), "D": name("d"), "R": name("v"), "ia": rng.random() < 0.5, "computed": rng.random() < 0.5}
+        if len({nd[x] for x in "PVWDR"}) == 5 and not all(nd[x].isascii() for x in "PVWDR"):
+            break
+    if nd["computed"] and not nd["W"].isascii():
+        # external importer: pysbml un-escapes `__<ord>__` in the variable of the assignment rule of a computed coefficient
+        # but not in the species-reference id (see design/C08.md, finding names-needing-escaping): keep that species ASCII
+        nd["W"] = "p"
+    return nd
+
+
+def unicode_doc_oracle(nd: dict, scratch: Path, tag: str) -> str | None:
+    """-> description of the violation | "inconclusive" | None"""
+    out = name_doc_observed(nd, scratch, tag)
+    if out[0] != "ok":
+        return f"sbml.write refuses a model whose names contain non-ASCII letters {nd}: {out[1]} {out[2]}"
+    try:
+        if out[2]:
+            return f"the written document uses identifiers that nothing declares: {out[2]} (names {nd}); declared ids {[o[3] for o in out[1] if o[0] == 'RDeclared']}"
+        m = build_name_doc(nd, scratch)
+        m2, kind, bad = read_model(out[3])
+        if m2 is None:
+            return bad if bad else "inconclusive"
+        kind, bad = compare_models(m, m2, [None, {nd["V"]: 3.0, nd["W"]: 0.25}])
+        return bad and f"export+import of a model with the names {nd}: {bad}"
+    finally:
+        out[3].unlink(missing_ok=True)
+
+
+def _close_model(mod: str, params: list, variables: list, rx_args: list[str], flags: list[str], states: list, derived: list | None = None) -> tuple[dict, list]:
+    spec = {"module": MODULE_HEADER2 + mod, "parameters": params, "variables": variables, "derived": derived or [],
+            "reactions": [["n400", "f0", rx_args, [[variables[0][0], -1], [variables[1][0], 1]]]], "flags": flags, "fns": {}}  # fmt: skip
+    return spec, states
+
+
+def _st(a: float, b: float, va: str = "n100", vb: str = "n101") -> dict[str, float]:
+    return {va: a, vb: b}
+
+
+CLOSE_MODEL_CORPUS: list[tuple[dict, list]] = [
+    # seeded C08-4: an intermediate assignment rebinds a parameter; the truncated law still mentions known names only
+    _close_model("def f0(p0, p1, p2):\n    p0 = p0 / (p2 + p0)\n    return p1 * p0\n", [["n200", 3.0], ["n201", 0.5]], [["n100", 2.0], ["n101", 0.25]],
+                 ["n100", "n200", "n201"], ["mayrefuse", "multistmt:rebinding"], [None, _st(0.5, 3.0), _st(10.0, 1.5)]),
+    _close_model('def f0(p0, p1):\n    """Docstring first, then an intermediate, then the result."""\n    p1 = p1 * p1\n    return p1 * p0\n', [["n200", 4.0]],
+                 [["n100", 2.0], ["n101", 0.25]], ["n101", "n200"], ["mayrefuse", "multistmt:rebinding"], [None, _st(0.5, 3.0)]),
+    _close_model("def f0(p0, p1):\n    if p0 > 1: return p1\n    return -p1\n", [["n200", 4.0]], [["n100", 2.0], ["n101", 0.25]], ["n100", "n200"],
+                 ["mayrefuse", "multistmt:early-return"], [None, _st(0.5, 3.0)]),
+    # seeded C08-6: at the initial state (4 / 3) both remainders agree; at 5, 8, 2 they do not
+    _close_model("def f0(p0, p1, p2):\n    return p2 * math.remainder(p0, p1)\n", [["n200", 3.0], ["n201", 0.5]], [["n100", 4.0], ["n101", 0.0]],
+                 ["n100", "n200", "n201"], ["mayrefuse", "function", "remainder:math"], [None, _st(5.0, 1.0), _st(8.0, 1.0), _st(2.0, 1.0)]),
+    _close_model("def f0(p0, p1, p2):\n    return p2 * np.remainder(p0, p1)\n", [["n200", 3.0], ["n201", 0.5]], [["n100", 4.0], ["n101", 0.0]],
+                 ["n100", "n200", "n201"], ["mayrefuse", "function", "remainder:np"], [None, _st(5.0, 1.0), _st(8.0, 1.0), _st(2.0, 1.0)]),
+    # seeded C08-5: Greek letters in every kind of component, an initial assignment and a computed coefficient
+    ({"module": MODULE_HEADER2 + "def f0(p0, p1):\n    return p1 * p0\n\ndef f1(p0, p1):\n    return p0 / (1 + p1)\n\ndef f2(p0):\n    return 2 * p0\n",
+      "parameters": [["k\u03bc", 1.5], ["k2", 0.25]], "variables": [["s\u03b1", 2.0], ["p", {"ia": ["f2", ["k\u03bc"]]}]],
+      "derived": [["d\u0394", "f1", ["s\u03b1", "p"]]],
+      "reactions": [["v\u03b2", "f0", ["s\u03b1", "k\u03bc"], [["s\u03b1", -1], ["p", {"derived": ["f2", ["k2"]]}]]], ["v2", "f0", ["d\u0394", "k2"], [["p", -1.5]]]],
+      "flags": ["non-ascii-names", "initial_assignment", "computed_stoichiometry"], "fns": {}},
+     [None, {"s\u03b1": 2.0, "p": 3.0}, {"s\u03b1": 0.125, "p": 7.0}]),
+]
+
+
+def gen_close_model(rng) -> tuple[dict, list]:  # noqa: ANN001
+    """A two-species model whose single rate law is a generated multi-statement function / remainder call, or an ordinary
+    law over names with non-ASCII letters."""
+    r = rng.random()
+    va, vb, pa, pb = "n100", "n101", "n200", "n201"
+    flags: list[str]
+    if r < 0.4:
+        fd = c08_gen.gen_multistmt_function(rng)
+    elif r < 0.7:
+        fd = c08_gen.gen_remainder_function(rng)
+    else:
+        fd = {"params": ["p0", "p1"], "body": [("return", gen_core_expr(rng, ["p0", "p1"], 2, set()))], "flags": ["non-ascii-names"]}
+        ch = lambda: rng.choice(UNICODE_LETTERS)  # noqa: E731
+        va, vb, pa, pb = "s" + ch(), "p" + ch() + rng.choice(["", "1"]), "k" + ch(), "K_" + ch() + ch()
+    k = len(fd["params"])
+    args = [va, pa, pb][:k]
+    vals = [rng.choice([0.5, 1.5, 2.0, 3.0, 4.0]) for _ in range(4)]
+    spec = {"module": MODULE_HEADER2 + fn_src("f0", fd["params"], fd["body"]), "parameters": [[pa, vals[0]], [pb, vals[1]]],
+            "variables": [[va, vals[2]], [vb, vals[3]]], "derived": [], "reactions": [["n400", "f0", args, [[va, -1], [vb, rng.choice([1, 0.5, 2])]]]],
+            "flags": list(fd["flags"]), "fns": {}}  # fmt: skip
+    states: list = [None] + [{va: float(rng.choice([2, 5, 7, 8, 11])), vb: float(rng.randint(0, 4))} for _ in range(2)]
+    return spec, states
+
+
 def gen_ref_doc(rng) -> dict:  # noqa: ANN001
     """A document with several computed coefficients, often for ONE species in several reactions (and twice in one)."""
     fns: list[tuple[str, list[str], list[tuple]]] = [("f0", ["p0"], [("return", ("name", "p0"))])]
@@ -945,6 +1054,23 @@ MATH_CORPUS: list[tuple[list[str], tuple, list[str]]] = [
 ]
 
 
+_P0, _P1, _P2 = _n("p0"), _n("p1"), _n("p2")
+_REM_ARGS = [("bin", "Add", _P0, ("int", 3)), ("int", 3)]
+# closing pass (seeded C08-4 / C08-6): bodies with more than one statement, and the two functions called `remainder`
+CLOSE_MATH_CORPUS: list[tuple[list[str], list[tuple], list[str]]] = [
+    (["p0", "p1", "p2"], [("assign", "p0", ("bin", "Div", _P0, ("bin", "Add", _P2, _P0))), ("return", ("bin", "Mult", _P1, _P0))], ["mayrefuse", "multistmt:rebinding"]),
+    (["p0", "p1"], [("doc",), ("assign", "p1", ("bin", "Mult", _P1, _P1)), ("return", ("bin", "Mult", _P1, _P0))], ["mayrefuse", "multistmt:rebinding"]),
+    (["p0", "p1"], [("assign", "t60", ("bin", "Add", ("bin", "Mult", _P0, ("int", 2)), _P1)), ("return", ("bin", "Sub", _n("t60"), _P1))], ["mayrefuse", "multistmt:local"]),
+    (["p0", "p1"], [("otherstmt", "if p0 > 1: return p1"), ("return", ("un", "USub", _P1))], ["mayrefuse", "multistmt:early-return"]),
+    (["p0", "p1"], [("otherstmt", "p0 += 1"), ("return", ("bin", "Mult", _P0, _P1))], ["mayrefuse", "multistmt:augmented"]),
+    (["p0"], [("return", ("callattr", "math", "remainder", _REM_ARGS, False))], ["mayrefuse", "function", "remainder:math"]),
+    (["p0"], [("return", ("callattr", "np", "remainder", _REM_ARGS, False))], ["mayrefuse", "function", "remainder:np"]),
+    (["p0"], [("return", ("callattr", "numpy", "remainder", _REM_ARGS, False))], ["mayrefuse", "function", "remainder:numpy"]),
+    (["p0", "p1"], [("return", ("bin", "Mult", ("real", Fraction(1, 2)), ("callname", "remainder", [("bin", "Add", _P0, ("int", 3)), ("bin", "Add", _P1, ("int", 2))], False)))],
+     ["mayrefuse", "function", "remainder:bare"]),
+]
+
+
 def _model(mod: str, **kw) -> dict:  # noqa: ANN003
     spec = {"module": MODULE_HEADER + mod, "parameters": [["n200", 2.0]], "variables": [["n100", 1.5], ["n101", 0.5]],
             "derived": [], "reactions": [], "flags": [], "fns": {}}  # fmt: skip
@@ -1000,7 +1126,13 @@ def check(run: Run) -> None:
         "need escaping (every identifier occurrence; dangling identifiers); sessions: 2 corpus + 8/40 generated sequences of 3-4 round "
         "trips in one interpreter (edited model over the same path, another model over the same path, same file name in another "
         "directory, stems differing in case/separators), the first 4/6 again under default interpreter settings (byte-code caching on, "
-        "subprocess), and 4/12 write/read histories for the Coq session model (in-process + subprocess with observed mtime/size)"
+        "subprocess), and 4/12 write/read histories for the Coq session model (in-process + subprocess with observed mtime/size). "
+        "Closing pass (own random stream c08-close): 9 corpus + 60/300 functions whose body has several statements (assignments that "
+        "rebind a parameter or introduce a local, early returns, augmented assignments) + 30/120 remainder calls (math / np / numpy / "
+        "bare), all of which the exporter may refuse and which are judged by the math oracle when exported; 12 corpus + ~30/110 names "
+        "with non-ASCII code points (every id must be a legal SBML SId; code-point correspondence, which also re-runs all ASCII id "
+        "cases); 6/24 documents and 11/36 whole models with multi-statement / remainder laws or non-ASCII letters in their names "
+        "(non-ASCII identifier names must round-trip BY NAME)"
     )
     proofs_ok = run.check_proofs(AREA, PROPS)
     run.assumptions += [
@@ -1014,7 +1146,13 @@ def check(run: Run) -> None:
         "SBML meaning of species references (reactant negative, product positive, assignment rule bound to the reference id); "
         "exercised by the round-trip oracle, not verified",
         "CPython evaluation of the rate functions is modelled by eval_py (exact rationals; bool = 1/0; names that are not "
-        "parameters have no value); IdentifierReplacer renaming callee names, nested attributes, non-ASCII names are outside the model",
+        "parameters have no value; `x = e` rebinds x for the later statements; statements other than return / assignment have no "
+        "modelled value); the function a called name means depends on the library only for `remainder` (numpy: floored modulo; math "
+        "and a bare name: IEEE 754 remainder), the bare name being math's is an assumption about the caller's imports; "
+        "IdentifierReplacer renaming callee names and nested attributes are outside the model",
+        "ids over arbitrary code points (coq/sbmlexp/SbmlIdU.v): Python's Unicode tables (`\\w` on str patterns, str.isalpha) are "
+        "Section variables in the theorems and per-case lists computed by the harness in the correspondence; that libSBML rejects an "
+        "id that is not a legal SId (and nothing else) is libSBML's documented behaviour, exercised by the document oracle",
         "correspondence harness: generators, Gallina printers, libSBML tree walker, coqc output parser; the document-level "
         "correspondence reads the libSBML document sbml.write hands to libsbml.writeSBMLToFile",
         "sessions: src/mxlpy/sbml/_import.py::read and import_from_path are modelled (coq/sbmlexp/SbmlSession.v); pysbml's parser + "
@@ -1095,32 +1233,53 @@ def _run(run: Run, rng, scratch: Path, thorough: bool) -> None:  # noqa: ANN001
                 fd["flags"] = sorted({*fd["flags"], "ownnames:" + bound[2]})
         fdefs.append(fd)
     math_cases, math_meta = [], []
-    for chunk_i, chunk in enumerate(common.chunks(fdefs, 200)):
-        text = MODULE_HEADER + "\n\n".join(fn_src(fd["name"], fd["params"], fd["body"]) for fd in chunk)
-        mod = load_module(scratch, text)
-        for fd in chunk:
-            fn = getattr(mod, fd["name"])
-            out = sbmlify(fn, fd["args"])
-            src = fn_src(fd["name"], fd["params"], fd["body"])
-            nontrivial = any(c in src for c in "+-*/<>=(")
-            run.count_case(("fn", src, fd["args"]), nontrivial=nontrivial)
-            bump("fn:" + ("exported" if out[0] == "ok" else out[1]))
-            for fl in fd["flags"]:
-                bump("fnflag:" + fl)
-            bad = math_oracle(fn, fd["params"], fd["args"], out, fd["flags"]) if "global" not in fd["flags"] and "deadcode" not in fd["flags"] else None
-            if bad and may_report("math", 4):
-                run.violation(f"_sbmlify_fn: {bad} -- {src.strip().splitlines()[-1].strip()}",
-                              {"kind": "math", "source": src, "fname": fd["name"], "params": fd["params"], "args": fd["args"], "flags": fd["flags"]})  # fmt: skip
-            elif bad:
-                bump("fn:more-violations")
-            math_cases.append(f"({coq_fundef(fd['params'], fd['body'])}, {clist(cn(int(a[1:])) for a in fd['args'])}, {outcome_to_coq(out, KINDS)})")
-            math_meta.append((src, fd["args"], out[:2] if out[0] == "err" else "ok"))
-            if chunk_i == 0:
-                run.sample({"function": src, "args": fd["args"], "outcome": out if out[0] == "err" else "exported"}, cap=3)
 
+    def run_functions(fds: list[dict], header: str, kind: str, sample: bool) -> None:
+        for chunk_i, chunk in enumerate(common.chunks(fds, 200)):
+            text = header + "\n\n".join(fn_src(fd["name"], fd["params"], fd["body"]) for fd in chunk)
+            mod = load_module(scratch, text)
+            for fd in chunk:
+                fn = getattr(mod, fd["name"])
+                out = sbmlify(fn, fd["args"])
+                src = fn_src(fd["name"], fd["params"], fd["body"])
+                nontrivial = any(c in src for c in "+-*/<>=(")
+                run.count_case(("fn", src, fd["args"]), nontrivial=nontrivial)
+                bump("fn:" + ("exported" if out[0] == "ok" else out[1]))
+                for fl in fd["flags"]:
+                    bump("fnflag:" + fl)
+                bad = math_oracle(fn, fd["params"], fd["args"], out, fd["flags"]) if "global" not in fd["flags"] and "deadcode" not in fd["flags"] else None
+                if bad and may_report(kind, 4):
+                    rep_ = {"kind": "math", "source": src, "fname": fd["name"], "params": fd["params"], "args": fd["args"], "flags": fd["flags"]}
+                    if header != MODULE_HEADER:
+                        rep_["header"] = header
+                    run.violation(f"_sbmlify_fn: {bad} -- {' ; '.join(x.strip() for x in src.strip().splitlines()[1:])}", rep_)
+                elif bad:
+                    bump("fn:more-violations")
+                math_cases.append(f"({coq_fundef(fd['params'], fd['body'])}, {clist(cn(int(a[1:])) for a in fd['args'])}, {outcome_to_coq(out, KINDS)})")
+                math_meta.append((src, fd["args"], out[:2] if out[0] == "err" else "ok"))
+                if chunk_i == 0 and sample:
+                    run.sample({"function": src, "args": fd["args"], "outcome": out if out[0] == "err" else "exported"}, cap=3)
+
+    run_functions(fdefs, MODULE_HEADER, "math", True)
     lap("A functions")
+    # ---- (A2) closing pass, own random stream: multi-statement bodies and the two remainders ---------------------------
+    rng2 = common.rng_for(run.seed, "c08-close")
+    cdefs: list[dict] = []
+    for params, body, fl in CLOSE_MATH_CORPUS:
+        cdefs.append({"params": params, "body": body, "flags": fl, "name": f"c{len(cdefs)}", "args": [f"n{100 + j}" for j in range(len(params))]})
+    for _ in range(300 if thorough else 60):
+        cdefs.append(c08_gen.gen_multistmt_function(rng2))
+    for _ in range(120 if thorough else 30):
+        cdefs.append(c08_gen.gen_remainder_function(rng2))
+    for i, fd in enumerate(cdefs):
+        fd.setdefault("name", f"c{i}")
+        fd.setdefault("args", [f"n{100 + j}" for j in range(len(fd["params"]))])
+    run_functions(cdefs, MODULE_HEADER2, "math-close", False)
+    lap("A2 multi-statement bodies, remainders")
     # ---- (B) ids ----------------------------------------------------------------------
     from mxlpy.sbml._export import _convert_id_to_sbml
+
+    import re
 
     alphabet = "abzAZ019_-. +*/()[]:;<>=|^'~#%"
     id_cases, id_meta = [], []
@@ -1137,13 +1296,42 @@ def _run(run: Run, rng, scratch: Path, thorough: bool) -> None:  # noqa: ANN001
         safe = bool(nm) and nm[0].isalpha() and all(c.isalnum() or c == "_" for c in nm) and nm.isascii()
         if safe and exp != ("ok", nm) and may_report("id", 2):
             run.violation(f"_convert_id_to_sbml changes a name that needs no escaping: {nm!r} -> {exp}", {"kind": "id", "name": nm, "prefix": prefix})
+        if exp[0] == "ok" and not SID_RE.fullmatch(exp[1]) and may_report("id-legal", 2):
+            run.violation(f"_convert_id_to_sbml({nm!r}, prefix={prefix!r}) -> {exp[1]!r}: not a legal SBML SId, libSBML's setId rejects it "
+                          "and the component is written without an id", {"kind": "id", "name": nm, "prefix": prefix, "legal": True})  # fmt: skip
         e = f"(Ok {cstr(exp[1])})" if exp[0] == "ok" else f"(Err {c08_gen.ERR_COQ.get(exp[1], 'ErrOther')})"
         id_cases.append(f"({cstr(prefix)}, {cstr(nm)}, {e})")
         id_meta.append((nm, prefix, exp))
 
+    # closing pass: names with non-ASCII code points (letters and digits of other scripts are legal in Python identifiers and
+    # in MxlPy names).  Oracle, independent of the model: the id must be a legal SBML SId -- libSBML's setId rejects anything
+    # else with a return code nobody reads.  Correspondence: coq/sbmlexp/SbmlIdU.v on code point lists.
+    idu_cases, idu_meta = [], []
+    unames = list(UNICODE_ID_CORPUS)
+    ualphabet = "abzAZ019_-. " + UNICODE_CHARS
+    for _ in range(150 if thorough else 40):
+        nm = "".join(rng2.choice(ualphabet) for _ in range(rng2.randint(1, 5)))
+        if not nm.isascii():
+            unames.append(nm)
+    for nm, prefix, exp in [(a, b, c) for a, b, c in id_meta if a] + [(nm, rng2.choice(["CPD", "PAR", "AR", "IA", "RXN"]), None) for nm in unames]:
+        if exp is None:
+            try:
+                exp = ("ok", _convert_id_to_sbml(id_=nm, prefix=prefix))
+            except Exception as e:  # noqa: BLE001
+                exp = ("err", common.classify_exception(e))
+            run.count_case(("idu", nm, prefix), nontrivial=True)
+            bump("id:non-ascii-name")
+            if (exp[0] != "ok" or not SID_RE.fullmatch(exp[1])) and may_report("id-legal", 2):
+                run.violation(f"_convert_id_to_sbml({nm!r}, prefix={prefix!r}) -> {exp[1]!r}: not a legal SBML SId, libSBML's setId rejects it "
+                              "and the component is written without an id", {"kind": "id", "name": nm, "prefix": prefix, "legal": True})  # fmt: skip
+        cps = lambda t: clist(cn(ord(c)) for c in t)  # noqa: E731
+        nonascii = sorted({c for c in nm if ord(c) >= 128})
+        e = f"(Ok {cps(exp[1])})" if exp[0] == "ok" else f"(Err {c08_gen.ERR_COQ.get(exp[1], 'ErrOther')})"
+        idu_cases.append(f"({cps(prefix)}, {cps(nm)}, {cps([c for c in nonascii if re.fullmatch(chr(92) + 'w', c)])}, {cps([c for c in nonascii if c.isalpha()])}, {e})")
+        idu_meta.append((nm, prefix, exp))
+
     lap("B ids")
     # ---- (B2) identifiers inside whole documents (names that need escaping) --------------------
-    import re
 
     name_cases, name_meta = [], []
     math_mode = expected_math_names()
@@ -1182,6 +1370,16 @@ def _run(run: Run, rng, scratch: Path, thorough: bool) -> None:  # noqa: ANN001
         elif bad and may_report("names", 2):
             run.violation(bad, {"kind": "names", "doc": nd})
 
+    # closing pass: documents whose names contain non-ASCII letters.  The escaped id is un-escaped by the importer, and the
+    # letter is legal in a Python identifier: these names SURVIVE the round trip -- compared BY NAME (kinds, initial values,
+    # derived values, fluxes, derivatives at two states), after the document was searched for identifiers nothing declares
+    for i in range(24 if thorough else 6):
+        nd = UNICODE_DOC_CORPUS[i] if i < len(UNICODE_DOC_CORPUS) else gen_unicode_doc(rng2)
+        bad = unicode_doc_oracle(nd, scratch, f"u{i}")
+        run.count_case(("unames", tuple(sorted(nd.items()))), nontrivial=True)
+        bump("name-doc:non-ascii-names" + ("" if bad is None else "-VIOLATION") if bad != "inconclusive" else "name-doc:non-ascii-names-inconclusive")
+        if bad and bad != "inconclusive" and may_report("unames", 2):
+            run.violation(bad, {"kind": "unames", "doc": nd})
     lap("B2 identifiers")
     # ---- (C) one-reaction / one-assignment documents ---------------------------------------
     rxn_cases, rxn_meta, ia_cases, ia_meta = [], [], [], []
@@ -1277,8 +1475,11 @@ def _run(run: Run, rng, scratch: Path, thorough: bool) -> None:  # noqa: ANN001
         if bad and kind in IMPORT_SIDE:
             # recorded findings (known_findings.d/C08.json), by guard: the importer cannot read truth values used as
             # numbers; computed coefficients of one species in several reactions share one reference id
-            guard = "shared_ref" if "shared_ref" in spec["flags"] else "boolnum" if "boolnum" in spec["flags"] else None
-            if guard is not None and GUARD_FINDING[guard] in known_ids:
+            # (every guard the model falls under counts, as long as its finding is still recorded: since the repair of the
+            # shared reference ids a model with BOTH flags is still inside the guard of boolean-as-number-import)
+            guards = [g for g in ("shared_ref", "boolnum") if g in spec["flags"] and GUARD_FINDING[g] in known_ids]
+            guard = guards[0] if guards else None
+            if guard is not None:
                 bump(f"model:known-finding-{GUARD_FINDING[guard]}")
                 kind, bad = "known-finding", None
         bump("model:" + kind)
@@ -1290,6 +1491,20 @@ def _run(run: Run, rng, scratch: Path, thorough: bool) -> None:  # noqa: ANN001
         if bad and may_report("model", 4):
             run.violation(f"export+import: {bad}", {"kind": "model", "spec": {k: v for k, v in spec.items() if k != "fns"}, "states": states})
     lap("D models")
+    # ---- (D2) closing pass: whole models with a multi-statement rate law / a remainder call (export may refuse; a file
+    # that is written must mean the model) and models whose names carry non-ASCII letters (must round-trip by name)
+    close_models = list(CLOSE_MODEL_CORPUS)
+    for _ in range(30 if thorough else 5):
+        close_models.append(gen_close_model(rng2))
+    for i, (spec, states) in enumerate(close_models):
+        kind, bad = roundtrip_oracle(spec, scratch, f"cm{i}", states)
+        bump("close-model:" + kind)
+        for fl in spec["flags"]:
+            bump("close-modelflag:" + fl)
+        run.count_case(("model", spec["module"], spec["parameters"], spec["variables"], spec["derived"], spec["reactions"]), nontrivial=kind in ("ok", "refused", "args", "fluxes", "rhs"))
+        if bad and may_report("close-model", 3):
+            run.violation(f"export+import: {bad}", {"kind": "model", "spec": {k: v for k, v in spec.items() if k != "fns"}, "states": states})
+    lap("D2 closing models")
     # ---- (E) sessions: several round trips in one interpreter session -------------------------
     n_sess = 40 if thorough else 8
     sessions = session_corpus() + [gen_session(rng, k) for k in range(n_sess)]
@@ -1351,6 +1566,9 @@ def _run(run: Run, rng, scratch: Path, thorough: bool) -> None:  # noqa: ANN001
         index[name] = ("math", k * 250)
     files["c08_ids"] = hdr + "Definition cases : list id_case := [\n  " + ";\n  ".join(id_cases) + "\n].\nEval vm_compute in id_mismatches cases.\n"
     index["c08_ids"] = ("id", 0)
+    for k, chunk in enumerate(common.chunks(idu_cases, 300)):
+        files[f"c08_idu_{k:02d}"] = hdr.replace("SbmlMath SbmlId SbmlDoc", "SbmlMath SbmlId SbmlIdU SbmlDoc") + "Definition cases : list idu_case := [\n  " + ";\n  ".join(chunk) + "\n].\nEval vm_compute in idu_mismatches cases.\n"
+        index[f"c08_idu_{k:02d}"] = ("idu", k * 300)
     if rxn_cases:
         files["c08_rxn"] = hdr + "Definition cases : list rxn_case := [\n  " + ";\n  ".join(rxn_cases) + "\n].\nEval vm_compute in rxn_mismatches cases.\n"
         index["c08_rxn"] = ("rxn", 0)
@@ -1368,7 +1586,7 @@ def _run(run: Run, rng, scratch: Path, thorough: bool) -> None:  # noqa: ANN001
         index["c08_ia"] = ("ia", 0)
     res = common.coq_eval_many(AREA, files, timeout_s=900)
     mism = 0
-    metas = {"math": math_meta, "id": id_meta, "rxn": rxn_meta, "ia": ia_meta, "refs": ref_meta, "sess": sess_meta, "names": name_meta}
+    metas = {"math": math_meta, "id": id_meta, "rxn": rxn_meta, "ia": ia_meta, "refs": ref_meta, "sess": sess_meta, "names": name_meta, "idu": idu_meta}
     for name in sorted(files):
         ok, out = res[name]
         lists = common.parse_eval_list(out) if ok else None
@@ -1380,11 +1598,12 @@ def _run(run: Run, rng, scratch: Path, thorough: bool) -> None:  # noqa: ANN001
             mism += 1
             if len(run.broken_correspondence) < 6:
                 run.broken_correspondence.append(f"model/implementation disagree on {what} case #{base + j}: {metas[what][base + j]}")
-    total = len(math_cases) + len(id_cases) + len(rxn_cases) + len(ia_cases) + len(ref_cases) + len(sess_cases) + len(name_cases)
+    total = len(math_cases) + len(id_cases) + len(rxn_cases) + len(ia_cases) + len(ref_cases) + len(sess_cases) + len(name_cases) + len(idu_cases)
     run.coverage["traces_validated_against_impl"] = total - mism
     run.coverage["correspondence_mismatches"] = mism
     run.coverage["correspondence_cases"] = {"math": len(math_cases), "ids": len(id_cases), "reactions": len(rxn_cases), "initial_assignments": len(ia_cases),
-                                               "document_reference_ids": len(ref_cases), "session_histories": len(sess_cases), "document_identifiers": len(name_cases)}
+                                               "document_reference_ids": len(ref_cases), "session_histories": len(sess_cases), "document_identifiers": len(name_cases),
+                                               "ids_over_code_points": len(idu_cases)}
 
     lap("Coq correspondence")
     # ---- known findings ---------------------------------------------------------------
@@ -1420,7 +1639,7 @@ def replay(rep: dict) -> int:
     sys.path.insert(0, str(scratch))
     try:
         if r.get("kind") == "math":
-            mod = load_module(scratch, MODULE_HEADER + r["source"])
+            mod = load_module(scratch, r.get("header", MODULE_HEADER) + r["source"])
             fn = getattr(mod, r["fname"])
             out = sbmlify(fn, r["args"])
             bad = math_oracle(fn, r["params"], r["args"], out, r["flags"])
@@ -1454,7 +1673,14 @@ def replay(rep: dict) -> int:
 
             got = _convert_id_to_sbml(id_=r["name"], prefix=r["prefix"])
             print("got:", got)
+            if r.get("legal"):
+                print("legal SBML SId:", bool(SID_RE.fullmatch(got)))
+                return 0 if SID_RE.fullmatch(got) else 1
             return 1 if got != r["name"] else 0
+        if r.get("kind") == "unames":
+            bad = unicode_doc_oracle(r["doc"], scratch, "replay")
+            print("oracle:", bad or "property holds on this input")
+            return 1 if bad and bad != "inconclusive" else 0
         print("nothing to replay:", rep.get("what"))
         return 1
     finally:
